@@ -722,6 +722,109 @@ func c13DoubleCloseThenGC(c *vf.Case, ioc *sonic.IO) {
 	runtime.GC()
 }
 
+
+// c13DescriptorZero: a process started with stdin closed hands descriptor number 0 to the first object it creates.
+// The number is as good as any other: Close releases it.
+func c13DescriptorZero(c *vf.Case, ioc *sonic.IO) {
+	saved, err := syscall.Dup(0)
+	if err != nil {
+		c.Count("descriptor_zero_probes_skipped", 1)
+		return
+	}
+	restore := func() { _ = syscall.Dup2(saved, 0) }
+	defer func() { restore(); syscall.Close(saved) }()
+	type maker struct {
+		name string
+		make func() (func() error, int, error)
+	}
+	lfd, lport, lerr := rawpeer.Listen4()
+	if lerr != nil {
+		c.Failf("harness-setup", "%v", lerr)
+		return
+	}
+	defer syscall.Close(lfd)
+	makers := []maker{
+		{"conn", func() (func() error, int, error) {
+			cn, err := sonic.Dial(ioc, "tcp", rawpeer.AddrOf(lport))
+			if err != nil {
+				return nil, -1, err
+			}
+			return cn.Close, cn.RawFd(), nil
+		}},
+		{"listener", func() (func() error, int, error) {
+			l, err := sonic.Listen(ioc, "tcp", "127.0.0.1:0")
+			if err != nil {
+				return nil, -1, err
+			}
+			return l.Close, l.RawFd(), nil
+		}},
+		{"packet-conn", func() (func() error, int, error) {
+			p, err := sonic.NewPacketConn(ioc, "udp", "127.0.0.1:0")
+			if err != nil {
+				return nil, -1, err
+			}
+			return p.Close, p.RawFd(), nil
+		}},
+		{"udp-peer", func() (func() error, int, error) {
+			p, err := multicast.NewUDPPeer(ioc, "udp", "127.0.0.1:0")
+			if err != nil {
+				return nil, -1, err
+			}
+			return p.Close, p.NextLayer().RawFd(), nil
+		}},
+		{"file", func() (func() error, int, error) {
+			f, err := sonic.Open(ioc, "/proc/self/status", syscall.O_RDONLY, 0)
+			if err != nil {
+				return nil, -1, err
+			}
+			return f.Close, f.RawFd(), nil
+		}},
+		{"timer", func() (func() error, int, error) {
+			t, err := sonic.NewTimer(ioc)
+			if err != nil {
+				return nil, -1, err
+			}
+			return t.Close, -2, nil
+		}},
+	}
+	for _, m := range makers {
+		if c.Failed() {
+			return
+		}
+		syscall.Close(0)
+		closeObj, fd, err := m.make()
+		if err != nil {
+			restore()
+			c.Failf("harness-setup", "%s with descriptor 0 free: %v", m.name, err)
+			return
+		}
+		if fd != 0 && fd != -2 {
+			// the constructor allocated something else first: not the situation under test
+			_ = closeObj()
+			restore()
+			c.Count("descriptor_zero_probes_skipped", 1)
+			continue
+		}
+		_ = closeObj()
+		if _, ferr := unix.FcntlInt(0, unix.F_GETFD, 0); ferr == nil {
+			syscall.Close(0)
+			restore()
+			c.Failf("descriptor-leak/descriptor-zero/"+m.name, "%s created while descriptor 0 was free received that number; after Close descriptor 0 is still open", m.name)
+			return
+		}
+		// a second Close must not touch whoever owns the number now
+		restore()
+		_ = closeObj()
+		if _, ferr := unix.FcntlInt(0, unix.F_GETFD, 0); ferr != nil {
+			restore()
+			c.Failf("second-close-closed-a-foreign-descriptor/descriptor-zero/"+m.name, "a second Close of a %s that had owned descriptor 0 closed the descriptor that holds that number now", m.name)
+			return
+		}
+		c.Count("descriptor_zero_probes", 1)
+		c.Cover("descriptor_zero_kinds", m.name)
+	}
+}
+
 // c13GCRearm: like c13GC, but the operation in flight when the references are dropped is one that was started from
 // inside the object's own completion handler (the usual read loop): first operation deferred, its completion re-issues
 // the operation, which is deferred again; only then are the references dropped and the collector run.
@@ -1273,6 +1376,9 @@ func runC13(c *vf.Case) {
 		if !c.Failed() {
 			c13CloseOrders(c)
 		}
+		if !c.Failed() {
+			c13DescriptorZero(c, ioc)
+		}
 		c.NonTrivial(fmt.Sprintf("gc/%d", c.Index))
 	}
 }
@@ -1282,7 +1388,7 @@ func init() {
 		ID:        "C13",
 		Level:     "fault_enumeration",
 		Technique: "fault enumeration under runtime monitors: /proc/self/fd census before/after every failing constructor (refused, bind conflict, failing option, bad path, bad/truncated handshake responses, descriptor-table exhaustion at the k-th allocation for every k via a packed table + RLIMIT_NOFILE), double-Close matrix with descriptor reuse checked by census, GC probes with a finalizer sentinel captured by the pending callback",
-		Rule: "cases rotate over five probe families: (0) for each of {NewIO, NewTimer, Listen, NewPacketConn, NewUDPPeer, Open, NewMirroredBuffer}: pack the descriptor table and lower RLIMIT_NOFILE so that only k more descriptors can be allocated, for k = 0,1,2,... until the constructor succeeds; (1) 13 failing constructors/connects (refused, unroutable with timeout, bind to foreign address, bind conflict, failing option, bad address, nonexistent path, invalid size) x 30 repetitions; (2) websocket Handshake and AsyncHandshake against a raw server that closes after 0 / k bytes, answers 200, a wrong accept key, garbage, or is not there x 8 repetitions; (3) the 7x7 matrix 'close A, create B, close A again' over {conn, listener, packet conn, UDP peer, timer, file, IO}; (4) GC probes for {conn read, conn write, packet conn read, UDP peer read, listener accept, timer} with references dropped, 4 collections and heap churn, the same with the operation re-issued from inside its own completion handler, and the teardown orders {object then IO, IO then object, object twice then IO} for {conn, listener, packet conn, UDP peer, timer} with and without a deferred operation, each followed by a census; the census is always taken without running the GC; " +
+		Rule: "cases rotate over five probe families: (0) for each of {NewIO, NewTimer, Listen, NewPacketConn, NewUDPPeer, Open, NewMirroredBuffer}: pack the descriptor table and lower RLIMIT_NOFILE so that only k more descriptors can be allocated, for k = 0,1,2,... until the constructor succeeds; (1) 13 failing constructors/connects (refused, unroutable with timeout, bind to foreign address, bind conflict, failing option, bad address, nonexistent path, invalid size) x 30 repetitions; (2) websocket Handshake and AsyncHandshake against a raw server that closes after 0 / k bytes, answers 200, a wrong accept key, garbage, or is not there x 8 repetitions; (3) the 7x7 matrix 'close A, create B, close A again' over {conn, listener, packet conn, UDP peer, timer, file, IO}; (4) GC probes for {conn read, conn write, packet conn read, UDP peer read, listener accept, timer} with references dropped, 4 collections and heap churn, the same with the operation re-issued from inside its own completion handler, and the teardown orders {object then IO, IO then object, object twice then IO} for {conn, listener, packet conn, UDP peer, timer} with and without a deferred operation, each followed by a census, and each of {conn, listener, packet conn, UDP peer, file, timer} created while descriptor 0 is free (it receives that number) and closed once and twice; the census is always taken without running the GC; " +
 			"every case is non-trivial; distinct = (family, case index)",
 		Assumptions: []string{
 			"the Go runtime opens descriptors lazily: every probe is warmed up once before its baseline census",
